@@ -195,6 +195,14 @@ impl<'tcx> Cx<'tcx> {
                     v.push(("v", J::N(sc.to_bits_unchecked() as i128)));
                 } else {
                     v.push(("repr", s(format!("{}", c.const_))));
+                    // the address of a `static` item: name the item
+                    if let mir::ConstValue::Scalar(mir::interpret::Scalar::Ptr(ptr, _)) = val {
+                        if let Some(rustc_middle::mir::interpret::GlobalAlloc::Static(did)) =
+                            self.tcx.try_get_global_alloc(ptr.provenance.alloc_id())
+                        {
+                            v.push(("static", s(self.def_path(did))));
+                        }
+                    }
                 }
             }
             MirConst::Ty(_, ct) => {
@@ -669,11 +677,27 @@ impl Callbacks for Cb {
                 }
                 DefKind::Static { .. } => {
                     let ty = tcx.type_of(did).instantiate_identity().skip_normalization();
-                    consts.push(J::O(vec![
+                    let mut v: Vec<(&'static str, J)> = vec![
                         ("name", s(cx.def_path(did))),
                         ("ty", cx.ty(ty)),
                         ("static", J::B(true)),
-                    ]));
+                    ];
+                    // the initial value of an immutable integer static
+                    if ty.is_integral() && !tcx.is_mutable_static(did) {
+                        let res = std::panic::catch_unwind(std::panic::AssertUnwindSafe(|| tcx.eval_static_initializer(did)));
+                        if let Ok(Ok(alloc)) = res {
+                            let a = alloc.inner();
+                            if a.len() <= 16 {
+                                let bytes = a.inspect_with_uninit_and_ptr_outside_interpreter(0..a.len());
+                                let mut n: u128 = 0;
+                                for (i, b) in bytes.iter().enumerate() {
+                                    n |= (*b as u128) << (8 * i);
+                                }
+                                v.push(("v", J::N(n as i128)));
+                            }
+                        }
+                    }
+                    consts.push(J::O(v));
                 }
                 DefKind::Struct | DefKind::Enum | DefKind::Union => adts.push(cx.adt(did)),
                 DefKind::Impl { .. } => {
